@@ -119,19 +119,16 @@ def combos : List (List String) → List String
 def dedupStr (l : List String) : List String :=
   l.foldr (fun x acc => if acc.contains x then acc else x :: acc) []
 
-/-- C28 on one observation: every key shows the transaction's write, or none does.  A deleted key
-    that was absent before cannot tell the two apart; an older value may also read as absent
-    (a rollback marker hiding it was C17's finding; a rollback marker written at a commit ts that
-    collides with the transaction's start ts replaces that record), so "old" admits both. -/
+/-- C28 on one observation: every key shows the transaction's write, or every key shows what was
+    committed before it (timestamps are unique: no seed shares one with the transaction).  A deleted
+    key that was absent before reads the same in both outcomes. -/
 def observeSpec (st : St) (t : Txn) (obs : List (Mut × GetRes)) : String × Option Bool :=
   if obs.any (fun p => p.2 = .locked) then ("*", st.decided)
   else
     let newLine := " ".intercalate (t.muts.map fun m => s!"{m.key}=" ++ optStr m.dataVal)
     let oldAlts := t.muts.map fun m =>
       let old := seedVal st.seeds m.key t.cv
-      let alts := dedupStr [s!"{m.key}=" ++ optStr old, s!"{m.key}=notfound"]
-      -- a put key must not show the new value in the "none" outcome
-      alts.filter (fun a => !(m.kind = .put && a == s!"{m.key}=" ++ optStr m.dataVal))
+      [s!"{m.key}=" ++ optStr old]
     let oldLines := combos oldAlts
     let discriminating := t.muts.any (fun m => m.kind = .put)
     let allNew := obs.all (fun p => decide (p.2 = (match p.1.dataVal with | some v => GetRes.val v | none => GetRes.notFound)))
